@@ -50,7 +50,8 @@ def run(ctx):
             # the path function must look at the identifier field(s) it is registered for
             fn = ctx.repo.mod(v.module).func(v.qualname)[0].node
             reads = {x.attr for x in ast.walk(fn) if isinstance(x, ast.Attribute)} | \
-                    {x.value for x in ast.walk(fn) if isinstance(x, ast.Constant) and isinstance(x.value, str)}
+                    {x.value for x in ast.walk(fn) if isinstance(x, ast.Constant) and isinstance(x.value, str)} | \
+                    {c_ for c_ in getattr(v, 'closure', {}).values() if isinstance(c_, str)}       # field names a factory-made function closed over
             shared_users = [k.name for k, vv in S.items() if isinstance(vv, FuncTok) and vv.key == v.key]
             need = set(idf) if c.name != 'Constant' else {'value'}
             ctx.check('R18.1', bool(need & reads), 'match', v.qualname, f'{c.name}: reads {sorted(need & reads)}',
@@ -69,7 +70,13 @@ def run(ctx):
     # ---- R18.2 -------------------------------------------------------------------------------------------------------
     ctx.rule('R18.2', 'the template `repl` is only read (copy / walk / path lookup); all edits go to `repl_ = repl.copy()` which '
                       'is created inside the loop before any use of `repl_`', 10)
-    targets = [sub] + [fi for q, fis in ctx.repo.mod('match').funcs.items() if q.startswith('_sub_repl_path_') for fi in fis]
+    targets, seen_t = [sub], set()
+    for v in S.values():          # the slot-discovery functions are the rows of the table, whatever they are called
+        if isinstance(v, FuncTok):
+            for fi_ in ctx.repo.mod(v.module).func(v.qualname):
+                if fi_.key not in seen_t:
+                    seen_t.add(fi_.key)
+                    targets.append(fi_)
     for fi in targets:
         for n in walk_no_nested(fi.node):
             if isinstance(n, ast.Call) and isinstance(n.func, ast.Attribute) and isinstance(n.func.value, ast.Name) and n.func.value.id == 'repl':
@@ -237,15 +244,27 @@ def check_slot_indices(ctx):
     from ..model import walk_no_nested
     ctx.rule('R18.5', 'the index recorded for a template slot in a list field enumerates that field itself', 3)
     n = 0
-    for fi in ctx.repo.all_funcs():
-        if fi.module != 'match' or not fi.name.startswith('_sub_repl_path') or isinstance(fi.node, ast.Lambda):
+    S = ctx.ev.get('match', '_SUB_REPL_PATH_FUNCS')
+    rows, seen_r = [], set()
+    for v in S.values():          # the rows of the table (a function made by a factory is one row per constant it closed over)
+        if isinstance(v, FuncTok) and v.key not in seen_r:
+            seen_r.add(v.key)
+            rows += [(fi_, v.closure) for fi_ in ctx.repo.mod(v.module).func(v.qualname)]
+    for fi, closure in rows:
+        if isinstance(fi.node, ast.Lambda):
             continue
         par = parent_map(fi.node)
         for t in ast.walk(fi.node):
-            if not (isinstance(t, ast.Tuple) and len(t.elts) == 2 and isinstance(t.elts[0], ast.Constant) and isinstance(t.elts[0].value, str)
-                    and isinstance(t.elts[1], ast.Name)):
+            if not (isinstance(t, ast.Tuple) and len(t.elts) == 2 and isinstance(t.elts[1], ast.Name)):
                 continue
-            field, idx = t.elts[0].value, t.elts[1].id
+            f0 = t.elts[0]
+            if isinstance(f0, ast.Constant) and isinstance(f0.value, str):
+                field = f0.value
+            elif isinstance(f0, ast.Name) and isinstance(closure.get(f0.id), str):
+                field = closure[f0.id]                      # `(field, idx)` with `field` bound by the factory call
+            else:
+                continue
+            idx = t.elts[1].id
             n += 1
             ok, how = False, 'index variable has no recognised binding'
             cur = t
@@ -272,7 +291,10 @@ def check_slot_indices(ctx):
                                         it = g2.iter
                         if isinstance(it, ast.Call) and call_name(it) == 'enumerate' and it.args:
                             src = it.args[0]
-                            if isinstance(src, ast.Attribute) and src.attr == field:
+                            via_getattr = isinstance(src, ast.Call) and call_name(src) == 'getattr' and len(src.args) == 2 and \
+                                ((isinstance(src.args[1], ast.Constant) and src.args[1].value == field) or
+                                 (isinstance(src.args[1], ast.Name) and closure.get(src.args[1].id) == field))
+                            if (isinstance(src, ast.Attribute) and src.attr == field) or via_getattr:
                                 ok, how = True, f'enumerate({norm(src)})'
                             else:
                                 how = f'`{idx}` counts the elements of `{norm(src, 50)}`, not of the field `{field}`'
